@@ -416,6 +416,9 @@ def matrix_library():
         "err": "error 'm-err'", "assert": "assert false : 'm-assert'; 1", "type": "1 + {}", "nofield": "{}.nope", "div": "1 / 0",
         "oob": "[][0]", "native": "std.parseInt('zz')", "overflow": "deep(450)", "cycle": "local a = b, b = a; a",
         "nested_lazy": "[1, error 'm-nested']", "badcall": "(function(a, b) a)(1)", "ok": "7",
+        "cmpfn_alias": "local fs = [0, std.length, 1]; fs == fs", "cmpfn_obj_alias": "local o = {a: 1, f: std.length}; o == o",
+        "cmpfn_late": "local fs = [0, [1, function(x) x]]; [fs == fs, 2]", "order_alias": "local a = [1, null]; a < a",
+        "equal_alias_ok": "local a = [1, [2, {b: 3}]]; [a == a, a <= a]",
     }
     fns = {
         "arity_more": "function(a, b) a", "arity_none": "function() 1", "body_err": "function(x) error 'm-fn-err'",
@@ -497,6 +500,118 @@ def matrix_shard(args):
     return agg
 
 
+# ------------------------------------------------------------------------------------------------
+# the same through rsjsonnet_front::Session with real files: its caches (loaded files, imported text / bytes) are part
+# of the long-lived state
+
+SESSION_FILES = {
+    "lib.libsonnet": b"{v: 1, boom: error 'lib-boom', t: importstr 'text.txt', b: importbin 'blob.bin', bs: importstr 'blob.bin', nested: import 'sub/n.libsonnet'}",
+    "blob.bin": b"\x01\x00\xffA\xc3",
+    "blob_utf8.bin": "\u00e9\u20ac\U0001f600".encode("utf-8"),
+    "text.txt": "h\u00e9llo\n".encode("utf-8"),
+    "sub/n.libsonnet": b"{up: import '../lib.libsonnet', w: 2, t: importstr '../text.txt'}",
+    "bad.libsonnet": b"{a: ",
+    "code.libsonnet": b"local x = std.trace('code-loaded', 3); {x: x, y: x + 1}",
+}
+SESSION_REQS = [
+    "importstr 'blob.bin'", "importbin 'blob.bin'", "std.length(importstr 'blob.bin')", "std.length(importbin 'blob.bin')",
+    "importbin 'blob_utf8.bin'", "importstr 'blob_utf8.bin'", "importstr 'text.txt'", "importbin 'text.txt'",
+    "(import 'lib.libsonnet').v", "(import 'lib.libsonnet').boom", "(import 'lib.libsonnet').b", "(import 'lib.libsonnet').bs",
+    "(import 'lib.libsonnet').t", "(import 'sub/n.libsonnet').up.v", "(import 'sub/n.libsonnet').t", "import 'bad.libsonnet'",
+    "importstr 'missing.txt'", "importbin 'missing.bin'", "(import 'sub/../lib.libsonnet').nested.w", "(import './lib.libsonnet').nested.up.b",
+    "importstr 'lib.libsonnet'", "importbin 'code.libsonnet'", "(import 'code.libsonnet').y", "importstr 'code.libsonnet'",
+    "importstr 'sub/../blob.bin'", "importbin './blob.bin'", "[importstr 'blob.bin', importbin 'blob.bin']", "[importbin 'blob.bin', importstr 'blob.bin']",
+    "import 'lib.libsonnet'", "importstr 'sub'", "import 'text.txt'",
+]
+
+
+def session_files_shard(args):
+    seed, n = args
+    import os
+    import shutil
+    import tempfile
+    rng = random.Random(seed)
+    agg = Agg()
+    srv = Server()
+    os.makedirs(common.SCRATCH, exist_ok=True)
+    d = tempfile.mkdtemp(dir=common.SCRATCH, prefix="c11sess")
+    try:
+        for rel, data in SESSION_FILES.items():
+            pth = os.path.join(d, rel)
+            os.makedirs(os.path.dirname(pth), exist_ok=True)
+            with open(pth, "wb") as f:
+                f.write(data)
+        for i, src in enumerate(SESSION_REQS):
+            with open(os.path.join(d, "req%02d.jsonnet" % i), "w") as f:
+                f.write(src)
+
+        def req_lines(slot, ri, again):
+            L = ["LOADFILE %d %s" % (slot, hx(os.path.join(d, "req%02d.jsonnet" % ri))), "EVAL %d %d 1" % (slot, slot), "MANI %d 0" % slot]
+            if again:
+                L += ["EVAL %d %d 1" % (slot, 500 + slot)]
+            return L
+
+        def reduce(r):
+            return (r.status, r.get("walk"), r.get("out"), r.get("fam"))
+        for _ in range(n):
+            hist = [(rng.randrange(len(SESSION_REQS)), rng.random() < 0.2, rng.random() < 0.2) for _ in range(rng.randint(2, 6))]
+            shared = ["SESS 0 -"]
+            offs = []
+            for i, (ri, again, gc) in enumerate(hist):
+                L = req_lines(i, ri, again) + (["GC"] if gc else [])
+                offs.append((len(shared), len(L)))
+                shared += L
+            agg.evaluations += 1
+            try:
+                recs = srv.request(shared, timeout=120)
+            except Crashed as e:
+                if e.kind in ("timeout", "oom"):
+                    agg.inconc(e.kind)
+                    continue
+                agg.violation({"kind": "crash_in_shared_session"}, {"history": [SESSION_REQS[h[0]] for h in hist], "crash": e.detail[-300:]}, {"script": shared})
+                continue
+            if any(r.status == "PANIC" for r in recs):
+                r = [r for r in recs if r.status == "PANIC"][0]
+                agg.violation({"kind": "panic_in_shared_session", "msg": re.sub(r"[0-9]+", "N", r.s("msg") or "")[:80]},
+                              {"history": [SESSION_REQS[h[0]] for h in hist], "panic": r.s("msg")}, {"script": shared})
+                continue
+            ok = True
+            for i, (ri, again, gc) in enumerate(hist):
+                fresh = ["SESS 0 -"] + req_lines(i, ri, False)
+                agg.evaluations += 1
+                try:
+                    frecs = srv.request(fresh, timeout=120)
+                except Crashed as e:
+                    agg.inconc(e.kind)
+                    ok = False
+                    break
+                off, ln = offs[i]
+                got = [reduce(r) for r in recs[off:off + 3]]
+                want = [reduce(r) for r in frecs[1:4]]
+                if got != want:
+                    k = next(j for j in range(3) if got[j] != want[j])
+                    agg.violation({"kind": "session_answer_depends_on_history", "request": SESSION_REQS[ri][:40], "op": ["LOADFILE", "EVAL", "MANI"][k]},
+                                  {"history": [SESSION_REQS[h[0]] for h in hist], "position": i, "request": SESSION_REQS[ri],
+                                   "shared_session": [str(x)[:200] for x in got[k]], "fresh_session": [str(x)[:200] for x in want[k]]}, {"script": shared})
+                    ok = False
+                    break
+                if again and reduce(recs[off + 3])[:2] != got[1][:2]:
+                    agg.violation({"kind": "session_reevaluation_differs", "request": SESSION_REQS[ri][:40]},
+                                  {"history": [SESSION_REQS[h[0]] for h in hist], "position": i}, {"script": shared})
+                    ok = False
+                    break
+                agg.add("session_request_outcomes", (SESSION_REQS[ri][:30], got[1][0]))
+            if ok:
+                agg.count("session_histories_ok")
+                agg.nontrivial.add(common.h64("sess", repr(hist)))
+            if len(agg.samples) < 1:
+                agg.sample({"leg": "session_files", "history": [SESSION_REQS[h[0]] for h in hist]})
+    finally:
+        srv.close()
+        shutil.rmtree(d, ignore_errors=True)
+    return agg
+
+
 def run(tier, seed):
     t0 = time.time()
     quick = tier != "thorough"
@@ -532,6 +647,9 @@ def run(tier, seed):
     for a in common.pmap(matrix_shard, [(seed * 773 + i, nm // 32) for i in range(32)]):
         total.merge(a)
     total.count("matrix_library_fields", len(MATRIX_CLUSTERS))
+    ns = 1600 if quick else 80000
+    for a in common.pmap(session_files_shard, [(seed * 787 + i, ns // 16) for i in range(16)]):
+        total.merge(a)
     rule = (f"histories of 1..8 requests drawn from {len(REQS)} request programs that share one library value (through "
             "an import and through an ext var) on one long-lived Program: values, explicit errors, assertion failures, "
             "stack overflows whose occurrence depends on the max_stack in effect, cycles, lazily failing elements, "
@@ -545,7 +663,9 @@ def run(tier, seed):
             "fails (explicit error, assert, type, unknown field, division, index, native, limit-dependent overflow, cycle, nested "
             "lazy error, arity too many/too few, failing/ok defaults, builtin arity/type), and failing objects behind wrappers that add "
             "nothing (+ {}, {} +, objext, local, assert true, removed key, hidden field) inside 4 holders - observed shallowly, deeply, "
-            "again, with gc and limit changes, in random orders; each response compared with the response of "
+            "again, with gc and limit changes, in random orders; histories through rsjsonnet_front::Session over real files (import / "
+            "importstr / importbin of the same files - valid and invalid UTF-8 - in every order, relative spellings, failing loads) "
+            "against a fresh Session per request; each response compared with the response of "
             "the same request on a fresh state (value walk, manifest text, error kind/message/in-source spans, stack-trace "
             "length; std.trace output is not compared); every history replayed in a second process for byte-identical records. "
             "distinct_nontrivial = distinct histories decided.")
